@@ -48,7 +48,7 @@ PROPS = {
         "engines": [storm(sq=12, st=12), storm("venue", arg="C16:venue", sq=4, st=4)],
         "rule": "each evaluation is the structural predicate on one MarginfiAccount after one instruction or at one commit; distinct = (where, number of active positions, tag set, flags); the venue engine drives worlds with up to 10 pass-through banks of three kinds (Kamino, Solend, Drift) and saturates the integration cap (one account enters every venue bank in turn); the storm engine adds liquidations by fresh accounts (positions opened inside a liquidation next to held ones) and by callers that name a bank twice among the liquidator's observation accounts",
         "assumptions": COMMON_ASSUMPTIONS + ["integration positions of all three kinds (Kamino, Solend, Drift) are opened through the venue stand-ins and through liquidation"],
-        "floors": {"quick": {"C16.liquidations_by_debtor_of_collateral_bank": 4, "ix_ok/Deposit": 500, "ix_ok/Borrow": 100, "ix_ok/KaminoDeposit": 200, "ix_ok/SolendDeposit": 100, "ix_ok/DriftDeposit": 100, "venue.cap_probes_saturated_at_8": 3, "C16.liquidation_opened_position_next_to_held_ones": 100, "C16.liquidations_by_holder_of_collateral_bank_only": 8}},
+        "floors": {"quick": {"scen.bankrupt_account_moved": 6, "scen.wipeout_collateral_fully_seized": 2, "C16.liquidations_by_debtor_of_collateral_bank": 4, "ix_ok/Deposit": 500, "ix_ok/Borrow": 100, "ix_ok/KaminoDeposit": 200, "ix_ok/SolendDeposit": 100, "ix_ok/DriftDeposit": 100, "venue.cap_probes_saturated_at_8": 3, "C16.liquidation_opened_position_next_to_held_ones": 100, "C16.liquidations_by_holder_of_collateral_bank_only": 8}},
     },
     "C17": {
         "engines": [storm(sq=12, st=12), storm("venue", arg="C17:venue", sq=4, st=4)],
@@ -78,7 +78,7 @@ PROPS = {
         "engines": [storm("scen")],
         "rule": "each evaluation is one receivership start/end instruction or one committed receivership transaction: reference maintenance health at start/end, seized vs repaid (equity values) against the premium limit located by bisection, transaction shape, surviving markers; distinct = (small account, #assets, #liabs, seized>0, repaid>0) and committed shapes",
         "assumptions": COMMON_ASSUMPTIONS + ["'none via CPI' is applied to start and end (what the program checks); see DESIGN 4 C10"],
-        "floors": {"quick": {"scen.receivership_over_reduce_only_collateral": 30, "scen.receivership_over_capped_collateral": 30, "C10.directed_short_instruction_shapes": 200, "C10.brackets_started": 50, "C10.brackets_committed": 5, "scen.receivership_boundary_found": 5, "scen.receivership_price_boundary_found": 8}},
+        "floors": {"quick": {"scen.receivership_whole_debt_rounds": 40, "admin.emissions_in_receivership_rounds": 10, "scen.receivership_over_reduce_only_collateral": 30, "scen.receivership_over_capped_collateral": 30, "C10.directed_short_instruction_shapes": 200, "C10.brackets_started": 50, "C10.brackets_committed": 5, "scen.receivership_boundary_found": 5, "scen.receivership_price_boundary_found": 8}},
     },
     "C11": {
         "engines": [storm()],
@@ -109,20 +109,20 @@ PROPS = {
         "engines": [direct("C20", sq=10, st=10), storm("venue", sq=4, st=4), dict(storm("venue-wrapcheck", sq=2, st=2), profile="dbgassert")],
         "rule": "direct engine: each evaluation is one call of a venue conversion / adjustment / staleness function on inputs clustered at overflow cliffs, judged against exact rationals; distinct = (venue, decimals, magnitude classes of supplies and amount). venue engine (chain rig): each evaluation is one accepted kamino / solend / drift deposit or withdraw executed against the stateful venue stand-ins, judged in exact rationals on what marginfi booked versus what the venue credited or paid (position credit <= venue collateral credited, credit worth <= tokens paid, tokens received <= worth of the position decrease, bank books <= obligation collateral, pass-through vault unchanged), plus deposit-then-withdraw-all round trips and borrow / withdraw probes against a reserve that was not refreshed in the current slot; the venue-wrapcheck engine runs the same workload on a build with debug assertions on, where the fixed-point operators and from_num check overflow instead of wrapping (an overflow panic inside price / venue conversion code marks a silently wrapped value in the deployed profile); distinct adds (instruction, rate class, decimals, empty reserve, withdraw-all, injected venue rounding fault)",
         "assumptions": ["'never rounds in the user's favour' is judged as the statement defines it (round trips, Drift decrement >= increment); comparison against the exact quotient allows the derived truncation error of the scaled supplies", "the venue engines run the pass-through instructions against harness-side stand-ins of Kamino, Solend and Drift (the venue's own rounding - floor in the venue's favour, Drift's round-up of non-zero decrements - optional injected off-by-one/two rounding faults), not the venue programs"],
-        "floors": {"quick": {"C20.round_trips": 30000, "C20.monotonicity_pairs": 12000, "C20.adjust_i64/some": 6000, "C20.drift_inc_dec/ok": 6000, "C20.venue_ops/KaminoDeposit": 500, "C20.venue_ops/KaminoWithdraw": 150, "C20.venue_ops/SolendDeposit": 300, "C20.venue_ops/SolendWithdraw": 100, "C20.venue_ops/DriftDeposit": 300, "C20.venue_ops/DriftWithdraw": 100, "C20.chain_round_trips": 10, "venue.stale_reserve_borrow_rejected": 10, "venue.stale_reserve_older_price_borrow_rejected": 10, "C20.cached_venue_prices_compared_at_rate_below_one": 50, "wrapcheck.committed_transactions_observed_under_debug_assertions": 2000}},
+        "floors": {"quick": {"venue.cliff_cases_refused": 2000, "venue.cliff_cases_priced": 2000, "C20.round_trips": 30000, "C20.monotonicity_pairs": 12000, "C20.adjust_i64/some": 6000, "C20.drift_inc_dec/ok": 6000, "C20.venue_ops/KaminoDeposit": 500, "C20.venue_ops/KaminoWithdraw": 150, "C20.venue_ops/SolendDeposit": 300, "C20.venue_ops/SolendWithdraw": 100, "C20.venue_ops/DriftDeposit": 300, "C20.venue_ops/DriftWithdraw": 100, "C20.chain_round_trips": 10, "venue.stale_reserve_borrow_rejected": 10, "venue.stale_reserve_older_price_borrow_rejected": 10, "C20.cached_venue_prices_compared_at_rate_below_one": 50, "wrapcheck.committed_transactions_observed_under_debug_assertions": 2000}},
     },
     "C08": {
         "engines": [storm("matrix")],
         "rule": "even shards: matrix over twin groups - every listed instruction x every signer identity (authority, stranger, 7 group roles, fee admin, other group's admin, no signature) x every single substitution of a bound account (foreign group twin, sibling bank's vault/authority, clone owned by another program, wrong sysvar / token program, for pass-through banks the venue reserve / obligation / program and the reserve or price account that values the collateral in the risk accounts), plus coherent substitutions (a foreign group's bank presented with all of its own vaults and oracle accounts); a cell counts only when its positive control succeeded; odd shards: attribution monitor over the administrative storm (every change of an account's balances / every role-signed instruction must be attributable to an entitled signer); distinct = (cell kind, instruction, identity or substitution, outcome)",
         "assumptions": COMMON_ASSUMPTIONS + ["the table of entitled signers and bound slots is written from the statement and the instruction doc comments (DESIGN App. A)"],
-        "floors": {"quick": {"impostor.probes_rejected": 5000, "C08.frozen_cells_foreign_group_and_its_admin": 200, "scen.tokenless_stranger_rounds": 5, "C08.admin_instructions_accepted/AddBank": 100, "C08.admin_instructions_accepted/AddBankWithSeed": 50, "C08.admin_instructions_accepted/CloseBank": 30, "C08.admin_instructions_accepted/StartDeleverage": 30, "admin.bank_creations_rejected": 50, "C08.matrix_foreign_group_with_its_settings_cells": 50, "C08.empty_bracket_committed": 50, "C08.matrix_foreign_group_with_its_role_holder_cells": 1000, "C08.matrix_controls_ok": 300, "C08.matrix_signer_cells": 3000, "C08.matrix_substitution_cells": 1000, "admin.role_rotations": 20, "fidelity.group_configure_requests_compared": 100}},
+        "floors": {"quick": {"unsigned.probes_rejected": 4000, "impostor.probes_rejected": 5000, "C08.frozen_cells_foreign_group_and_its_admin": 200, "scen.tokenless_stranger_rounds": 5, "C08.admin_instructions_accepted/AddBank": 100, "C08.admin_instructions_accepted/AddBankWithSeed": 50, "C08.admin_instructions_accepted/CloseBank": 30, "C08.admin_instructions_accepted/StartDeleverage": 30, "admin.bank_creations_rejected": 50, "C08.matrix_foreign_group_with_its_settings_cells": 50, "C08.empty_bracket_committed": 50, "C08.matrix_foreign_group_with_its_role_holder_cells": 1000, "C08.matrix_controls_ok": 300, "C08.matrix_signer_cells": 3000, "C08.matrix_substitution_cells": 1000, "admin.role_rotations": 20, "fidelity.group_configure_requests_compared": 100}},
         "exhaustive_note": "exhaustive over the listed cases x identities x substitutions per world",
     },
     "C12": {
         "engines": [storm("admin")],
         "rule": "each evaluation is one bank image changed by a delegated-admin instruction (field-level diff against the role's mask built with offset_of!), one instruction executed on a frozen bank (protected fields and freeze bit), or one deleverage withdrawal (reference daily window); distinct = (instruction, set of changed fields) pairs",
         "assumptions": COMMON_ASSUMPTIONS,
-        "floors": {"quick": {"scen.deleverage_withdraw_all_above_limit_attempts": 10, "scen.staked_propagate_after_feed_rotation_accepted": 20, "scen.first_withdrawal_of_a_new_day_attempts": 5, "scen.two_deleverage_starts_one_end_attempts": 30, "ix_ok/ForceTokenlessRepayComplete": 200, "C12.delegated_instructions/ConfigureBankInterestOnly": 100, "C12.delegated_instructions/ConfigureBankLimitsOnly": 100, "C12.delegated_instructions/ConfigureBankEmode": 100, "C12.delegated_instructions/UpdateEmissionsParameters": 100, "C12.instructions_on_frozen_bank/ConfigureBank": 50, "C12.instructions_on_frozen_bank/PropagateStakedSettings": 10, "C12.deleverage_withdrawals": 5, "scen.whale_deleverage_rejected/6101": 20}},
+        "floors": {"quick": {"admin.bank_metadata_write_by_foreign_group_metadata_admin": 60, "scen.deleverage_withdraw_all_above_limit_attempts": 10, "scen.staked_propagate_after_feed_rotation_accepted": 20, "scen.first_withdrawal_of_a_new_day_attempts": 5, "scen.two_deleverage_starts_one_end_attempts": 30, "ix_ok/ForceTokenlessRepayComplete": 200, "C12.delegated_instructions/ConfigureBankInterestOnly": 100, "C12.delegated_instructions/ConfigureBankLimitsOnly": 100, "C12.delegated_instructions/ConfigureBankEmode": 100, "C12.delegated_instructions/UpdateEmissionsParameters": 100, "C12.instructions_on_frozen_bank/ConfigureBank": 50, "C12.instructions_on_frozen_bank/PropagateStakedSettings": 10, "C12.deleverage_withdrawals": 5, "scen.whale_deleverage_rejected/6101": 20}},
     },
     "C13": {
         "engines": [storm("admin")],
